@@ -391,7 +391,24 @@ def replay_register_full_table(spec, vals, obligation, desc):
     return body, judge
 
 
-KINDS = {'callback_move_assign': replay_callback_move_assign, 'register_full_table': replay_register_full_table,
+def replay_register_refused(spec, vals, obligation, desc):
+    """fill the backend's table (64), register one more function (refused), release one owner, register that function again"""
+    regs = ''.join('  owners.push_back(sb.register_callback(cbfn<%d>));\n' % i for i in range(64))
+    body = NOOP_PRE + 'int main(){\n  SB sb; sb.create_sandbox();\n  std::vector<sandbox_callback<int (*)(long), rlbox_noop_sandbox>> owners;\n' + regs + '''
+  int refused = 0, second_refused = 0;
+  try { auto extra = sb.register_callback(cbfn<64>); } catch (const std::runtime_error&) { refused = 1; }
+  owners.pop_back();
+  try { auto again = sb.register_callback(cbfn<64>); } catch (const std::runtime_error& e) { second_refused = 1; std::printf("second_attempt_message=%s\\n", e.what()); }
+  std::printf("registration_65_refused=%d\\nretry_with_a_free_entry_point_refused=%d\\n", refused, second_refused);
+  return 0; }
+'''
+
+    def judge(d):
+        return d.get('registration_65_refused') == '1' and d.get('retry_with_a_free_entry_point_refused') == '1'
+    return body, judge
+
+
+KINDS = {'register_refused': replay_register_refused, 'callback_move_assign': replay_callback_move_assign, 'register_full_table': replay_register_full_table,
          'app_ptr_move_assign': replay_app_ptr_move_assign, 'convert': replay_convert, 'ptr_arith': replay_ptr_arith, 'arr_index': replay_arr_index,
          'check_range': replay_check_range, 'unverified_ptr': replay_unverified_ptr, 'buffer_address': replay_buffer_address,
          'assign_raw': replay_assign_raw, 'accept_pointer': replay_accept_pointer}
